@@ -1,6 +1,6 @@
 """C03 sort order persists through the pipeline and take selects by position."""
 import itertools, json, random, re
-import vlib, relgen, relcheck
+import vlib, relgen, relcheck, sorttrace
 from vlib import vh_batch, drv_batch
 from props.c01 import SAFE, FULL
 
@@ -8,13 +8,22 @@ MANIFEST = dict(
     text="Lean theorems: take_positions / takes_rangeOfRanges / normalize_ok / limit_offset_ok (for any number of consecutive takes "
          "and any list, the emitted LIMIT/OFFSET pair computed by the mirror of range_of_ranges selects exactly the rows at the "
          "positions the takes select one after the other), filter_keeps_order, map_keeps_order, last_sort_wins, sort_sorted (the sort "
-         "algebra the back end relies on when it keeps a single ORDER BY per block), and sublist/in-place facts of the reference "
-         "semantics. Ties: (i) the mirror of range_of_ranges is compared with the LIMIT/OFFSET the real compiler emits for all chains "
+         "algebra the back end relies on when it keeps a single ORDER BY per block), sublist/in-place facts of the reference "
+         "semantics; on the mirror of the sorting inference of postprocess.rs (Model.InferSorts): infer_sorts_tracks (after any prefix "
+         "of a block the state of the pass is the sort in effect: the most recent Sort or the inherited order, retained by select / filter "
+         "/ take / the left input of join, reset by aggregate / distinct), take_gets_the_sort_in_effect and "
+         "distinct_on_gets_the_sort_in_effect (the ORDER BY in front of every LIMIT / DISTINCT ON is that sort, or the take's embedded "
+         "sort), sorts_only_where_needed, cte_provides_sort_columns (a block that becomes a CTE selects every column of the order it "
+         "hands on), readers_see_the_stored_sorting (look-ups leave the store unchanged: any number of readers inherit the same order). "
+         "Ties: (i) the mirror of range_of_ranges is compared with the LIMIT/OFFSET the real compiler emits for all chains "
          "of up to 3 takes over small bounds; (ii) order-focused generated pipelines are run on SQLite and compared as row SEQUENCES "
-         "with the reference semantics whenever the most recent sort in effect is total.",
-    note="the sort-inference state machine of postprocess.rs is not mirrored; it is covered by the sequence comparison only. The "
-         "order of rows with equal sort keys is unspecified in SQL: such cases are compared as bags, and takes over ties are excluded.",
-    technique="Lean 4 proofs (take composition, sort algebra) + LIMIT/OFFSET correspondence + sequence-level differential run on SQLite", ref="4/C03")
+         "with the reference semantics whenever the most recent sort in effect is total; (iii) every call of fold_sql_transforms and "
+         "every ctes_sorting insert made while compiling a corpus is recorded (cargo feature verif) and replayed through the mirror - "
+         "output transforms, emitted Sorts, widened Select, final sorting and flag must agree exactly.",
+    note="the Flattener (which sort a take embeds) and alias_last_sorting are not mirrored; they are covered by the sequence comparison "
+         "only. The order of rows with equal sort keys is unspecified in SQL: such cases are compared as bags, and takes over ties are excluded.",
+    technique="Lean 4 proofs (take composition, sort algebra, sorting-inference state machine = declarative sort in effect) + LIMIT/OFFSET correspondence + replay of "
+              "every recorded sorting-inference call + sequence-level differential run on SQLite", ref="4/C03")
 
 ORDER_KINDS = ["sort", "sort", "sort", "take", "take", "derive", "select", "filter", "join", "group_agg", "aggregate", "group_take", "derive", "filter"]
 
@@ -28,7 +37,9 @@ def limit_offset_of_sql(sql):
 def run(ctx):
     br = vlib.standard_proof_obligations(ctx, ["PrqlModel.Props.C03"], [],
         required_theorems=["take_positions", "takes_rangeOfRanges", "takes_compose", "normalize_ok", "limit_offset_ok",
-                           "filter_keeps_order", "map_keeps_order", "last_sort_wins", "sort_sorted", "take_sublist", "filter_sublist", "filter_keeps_order_rel", "last_sort_wins_rel", "sort_sorted_rel", "take_compose_rel", "take_positions_rel", "derive_keeps_order_rel", "sort_stable_rel"])
+                           "filter_keeps_order", "map_keeps_order", "last_sort_wins", "sort_sorted", "take_sublist", "filter_sublist", "filter_keeps_order_rel", "last_sort_wins_rel", "sort_sorted_rel", "take_compose_rel", "take_positions_rel", "derive_keeps_order_rel", "sort_stable_rel",
+                           "infer_sorts_tracks", "take_gets_the_sort_in_effect", "distinct_on_gets_the_sort_in_effect", "sorts_only_where_needed",
+                           "cte_provides_sort_columns", "readers_see_the_stored_sorting", "retained_by_join", "reset_and_replace"])
     ctx.rule = ("(i) every chain of 1-3 takes with bounds from {open, 1..4} (exhaustive): LIMIT/OFFSET of the real SQL vs the Lean mirror; "
                 "(ii) generated pipelines biased towards sort/take and order-retaining or -resetting transforms x random databases: "
                 "SQLite row sequence vs reference semantics; non-trivial = compared as a sequence with >= 2 rows, or a take chain whose "
@@ -134,6 +145,19 @@ def run(ctx):
                                 "status": r["status"], "detail": r["detail"], "class": fid},
                                det_key=None if label == "seed" else (orig.prql, orig.db))
     ctx.coverage_extra["sequence_comparisons"] = nseq
+    # (iii) the sorting-inference mirror: every recorded call of fold_sql_transforms replayed through Model.InferSorts.inferBlock,
+    # every look-up of a CTE's sorting checked against Model.InferSorts.Store
+    tprogs = [c.prql for c in letcases[:150 if quick else 1500]] + [c.prql for c in dia[:400 if quick else 4000]]
+    trng = random.Random(39)
+    tprogs += [relgen.make_case(trng, kinds=ORDER_KINDS, max_tr=7, **SAFE).prql for _ in range(250 if quick else 2500)]
+    tprogs += [relgen.make_case(trng, **FULL).prql for _ in range(100 if quick else 1000)]
+    n_ev, n_bad, hooked = sorttrace.run_suite(ctx, tprogs, "infer-sorts", targets=("sql.sqlite", "sql.postgres", "sql.mssql"))
+    if hooked:
+        ctx.obligation("correspondence: fold_sql_transforms = Model.InferSorts.inferBlock on every recorded call; what a From inherits from a CTE = "
+                       "Model.InferSorts.Store", n_bad == 0 and n_ev > 0, f"{n_ev} recorded calls / histories replayed, {n_bad} differ")
+    else:
+        ctx.count("infer-sorts:skipped (tree has no `verif` hooks)")
+        ctx.assumptions.append("the trace hook is not available in this tree: the sorting-inference mirror was not compared this run")
     ctx.obligation("oracle: SQLite row sequences equal the reference semantics wherever a total sort is in effect", not [v for v in ctx.violations if v["kind"] == "failing-input"],
                    f"{nseq} sequence comparisons")
 
